@@ -6,7 +6,7 @@ here="$(cd "$(dirname "$0")/.." && pwd)"
 bin="$here/sim/target/release/simcheck"
 "$here/bin/check" list >/dev/null || exit 2
 fail=0
-for c in C01 C02 C03 C04 C05 C06 C07 C08 C09 C10 C11 C12 C13 C14 C15 C16 C17 C18; do
+for c in ${SELFTEST_CHECKS:-C01 C02 C03 C04 C05 C06 C07 C08 C09 C10 C11 C12 C13 C14 C15 C16 C17 C18}; do
   for seed in 1 7; do
     ref=""; bad=0
     for w in 16 5 16 2; do
